@@ -12,8 +12,9 @@ import (
 
 // P is the per-property rule context.
 type P struct {
-	c *Ctx
-	r *Report
+	c      *Ctx
+	r      *Report
+	nested bool // running as an included rule set: do not include further
 }
 
 // fn resolves an anchor function; a missing anchor is an undecided obligation (fails the check).
@@ -315,6 +316,20 @@ func okReturns(fn *ssa.Function) []Sink {
 		e := retValue(r, len(r.Results)-1)
 		if mayBeNilErr(e, map[ssa.Value]bool{}) {
 			out = append(out, Sink{r, "return with nil error"})
+		}
+	}
+	return out
+}
+
+// errReturns are the returns whose error result (last result) is not the nil constant.
+func errReturns(fn *ssa.Function) []Sink {
+	var out []Sink
+	for _, r := range returnsOf(fn) {
+		if len(r.Results) == 0 || r.Block() == fn.Recover {
+			continue
+		}
+		if e := retValue(r, len(r.Results)-1); canon(e) != "nil" {
+			out = append(out, Sink{r, "return with an error"})
 		}
 	}
 	return out
@@ -814,7 +829,10 @@ func boolAtomCanon(name, rx string) Atom {
 // imports the obligations of the listed rules under new rule ids (shared
 // mechanisms, e.g. the validator's cache-key rules, serve several properties).
 func (p *P) include(from propFunc, rules map[string]string, docs map[string]string) {
-	sub := &P{c: p.c, r: NewReport(p.r.Prop, p.r.Tier)}
+	if p.nested {
+		return
+	}
+	sub := &P{c: p.c, r: NewReport(p.r.Prop, p.r.Tier), nested: true}
 	from(sub)
 	count := map[string]int{}
 	for _, o := range sub.r.Obs {
